@@ -1,2 +1,4 @@
+pub mod ir;
+pub mod progen;
 pub mod soup;
 pub mod syngen;
